@@ -14,6 +14,7 @@
 EXTENDS Integers, Sequences, FiniteSets, TLC, Json
 
 CONSTANTS Addrs,      \* universe of peer addresses (strings)
+          Histories,  \* membership histories a node may have: subset of {"fresh", "grew", "shrank"}
           Traces,     \* trace ids (strings)
           MaxSends
 
@@ -31,7 +32,6 @@ VARIABLES S,        \* the peer set of this run
 
 vars == <<S, view, hist, landed, count, hops, selfFwd, outside, sends, own, act>>
 Views == {"sorted", "reversed", "rotated"}
-Histories == {"fresh", "grew", "shrank"}
 
 \* uninterpreted ownership: some member of the set, fixed the first time the trace is routed
 \* (whichever node routes it first: all nodes compute the same function of the same set)
